@@ -1,6 +1,6 @@
 (* Props_C10.v — C10: incarnation discipline, self-refutation and reaction to one's own death. *)
 From Foca Require Import Laws MembersM FocaM WireM L_Members L_MembersInv L_Join Inv L_Wire L_Discard L_Mech L_IncMono.
-From Foca Require Import L_Evidence L_IncHist.
+From Foca Require Import BcastM L_Evidence L_IncHist L_RenewDown.
 
 Section C10.
 Context {Id Addr : Type} {IO : IdOps Id Addr} {CO : CodecOps Id} {HO : HandlerOps Id}.
@@ -104,6 +104,37 @@ Theorem C10_no_identity_api_meaning (i : @input Id) (l : list (@input Id)) :
   /\ (no_identity_api (i :: l) <-> match i with IChangeIdentity _ | IReuseDown => False | _ => no_identity_api l end).
 Proof. split; reflexivity. Qed.
 
+(* GOSSIPING THE OLD IDENTITY AS DOWN.  An identity change is exactly: adopt the new identity (epoch
+   bumped, incarnation 0, idle, probe cleared, member list and configuration kept), put Down(old identity)
+   into the update backlog with the full max_transmissions - unless the instance was defunct, whose old
+   identity the cluster already holds Down -, then gossip from that state.  The automatic renewal on
+   learning Down(self) (C10_down_dichotomy) is this identity change followed by the Rejoin notification.
+   What a gossip round takes from the backlog is C15's subject (fill: every fitting pending update). *)
+Theorem C10_renewed_state_terms (f : @foca Id Addr HO) (new : Id) :
+  identity (renewed_state f new) = new /\ incarnation (renewed_state f new) = 0
+  /\ conn (renewed_state f new) = Disconnected /\ mems (renewed_state f new) = mems f
+  /\ cfg (renewed_state f new) = cfg f /\ token (renewed_state f new) = wrap8 (token f + 1)
+  /\ (conn f <> Undead ->
+      In (mkEntry (max_tx f) (enc_mem (mkMember (identity f) 0 Down)) (addr_of (identity f))) (updates (renewed_state f new))
+      /\ forall e, In e (updates (renewed_state f new)) ->
+           e = mkEntry (max_tx f) (enc_mem (mkMember (identity f) 0 Down)) (addr_of (identity f))
+           \/ (In e (updates f) /\ addr_eqb (addr_of (identity f)) (e_key e) = false)).
+Proof. exact (renewed_state_facts f new). Qed.
+
+Theorem C10_identity_change_declares_old_identity_down (rnd : oracle) (f : @foca Id Addr HO) (new : Id) :
+  id_eqb (identity f) new = false ->
+  step rnd f (IChangeIdentity new) = run_unit (gossip rnd) (renewed_state f new).
+Proof.
+  intros NE. cbn [step]. unfold run_unit. rewrite (change_identity_eq rnd (mkRs f [] 0) new NE). reflexivity.
+Qed.
+
+Theorem C10_renewal_gossips_old_identity_as_down (rnd : oracle) (s : @rs Id Addr HO) (new : Id) :
+  renew (identity (st s)) = Some new -> id_eqb (identity (st s)) new = false -> wins new (identity (st s)) = true ->
+  attempt_rejoin rnd s =
+  bind (gossip rnd) (fun _ => bind (emit (Notify (NRejoin new))) (fun _ => ret true))
+       (mkRs (renewed_state (st s) new) (out s) (ctr s)).
+Proof. exact (attempt_rejoin_eq rnd s new). Qed.
+
 End C10.
 
 Print Assumptions C10_monotone_call.
@@ -117,3 +148,6 @@ Print Assumptions C10_down_dichotomy.
 Print Assumptions C10_defunct_does_not_refute.
 Print Assumptions C10_monotone_along_histories.
 Print Assumptions C10_no_identity_api_meaning.
+Print Assumptions C10_renewed_state_terms.
+Print Assumptions C10_identity_change_declares_old_identity_down.
+Print Assumptions C10_renewal_gossips_old_identity_as_down.
